@@ -216,6 +216,8 @@ def kernel(cfg, pos, named, n, draws, observed, meta_bi):
         if infp:
             frac = (np.abs(acc) * 131.7) % 1.0
             d = np.where(frac < infp, np.inf, d)
+        elif cfg.get('dtype') == 'int' and lat and not smooth:
+            d = d.astype(np.int64)      # count-like discrepancy of integer dtype
         return d
     shape = tuple(cfg.get('shape', ()))
     if not shape:
@@ -422,6 +424,8 @@ def gen_inference_spec(tape, disc_kinds=('disc', 'dist'), max_priors=3, extra_sh
                 tape.choice('lattice_s', [2, 4, 10])
         if ties and tape.chance('inf', 1, 3):
             cfg['inf_p'] = tape.choice('inf_p', [0.1, 0.3, 0.6])
+        elif ties and cfg.get('lattice') and not smooth and tape.chance('int_discrepancy', 1, 3):
+            cfg['dtype'] = 'int'
         nodes.append({'name': 'd', 'kind': 'disc', 'parents': dpar, 'cfg': cfg})
     elif dk == 'dist':
         width = sum(int(np.prod(n['cfg']['shape'])) if n['cfg']['shape'] else 1
